@@ -50,6 +50,8 @@ def _parse_cue_text(cue_text: str, paragraph: model.P, line_number: int):
   for token in CueTextTokenizer(cue_text):
     parser.handle_token(token)
 
+_MAX_TAG_NESTING = 90
+
 class _TextCueParser:
 
   def __init__(self, paragraph: model.P, line_number: int) -> None:
@@ -58,6 +60,9 @@ class _TextCueParser:
 
     # parents of the elements that are currently open, outermost first
     self.open_parents: typing.List[model.ContentElement] = []
+
+    # number of open tags that are ignored because they are nested too deeply
+    self.ignored_depth: int = 0
 
     # handle the special case of ruby elements where children cannot be added one by one
     self.ruby_rbc: typing.Optional[model.Rbc] = None
@@ -99,6 +104,10 @@ class _TextCueParser:
 
   def _handle_ts(self, token: TimestampTagToken):
 
+    if len(self.open_parents) >= _MAX_TAG_NESTING:
+      LOGGER.warning("Timestamp tag %s at line %s is nested too deeply and is ignored", token.timestamp, self.line_num)
+      return
+
     span = self._make_span(self.parent)
     self._push_child(span)
     self._open(span)
@@ -119,6 +128,12 @@ class _TextCueParser:
   def _handle_starttag(self, token: StartTagToken):
 
     tag = token.tag.lower()
+
+    if len(self.open_parents) >= _MAX_TAG_NESTING:
+      # the document is processed recursively downstream
+      LOGGER.warning("Tag %s at line %s is nested too deeply and is ignored", tag, self.line_num)
+      self.ignored_depth += 1
+      return
 
     if tag.startswith("ruby") and isinstance(self.parent, model.P):
       span = model.Ruby(self.parent.get_doc())
@@ -187,6 +202,10 @@ class _TextCueParser:
       return
 
   def _handle_endtag(self, _token: EndTagToken):
+
+    if self.ignored_depth > 0:
+      self.ignored_depth -= 1
+      return
 
     if len(self.open_parents) == 0:
       LOGGER.warning("Stray end tag at line %s", self.line_num)
